@@ -71,6 +71,9 @@ def run(tier):
     r = sidecheck.gen(wd, "s-unchecked", "de", maxatt=2, maxrefs=2, devariant="unchecked", export=False)
     expect(res, "SideTables variant unchecked violates NoPanic", r.violation is not None, str(r.violation))
 
+    r = sidecheck.gen_nested_recv(wd, "nr-clear", variant="clear", export=False)
+    expect(res, "NestedRecv variant clear violates SelfContained", r.violation is not None, str(r.violation))
+
     import prop_c20
     mod = "A_wf"
     with open(os.path.join(wd, mod + ".tla"), "w") as f:
@@ -120,7 +123,9 @@ def run(tier):
         expect(res, "ResourcesTrace rejects a trace with %s" % what, bool(lr.violation), str(why))
     os.remove(raw)
     # router trace
-    sc = routercheck.gen_scenario(rnd, 0, "shutdown")
+    sc = {"id": 0, "seed": 11, "msgs": [2, 3, 1], "kinds": ["cb", "cb", "xbeam"],
+          "progs": [[{"op": "add", "r": 1}, {"op": "add", "r": 3}, {"op": "shutdown"}], [{"op": "add", "r": 2}]],
+          "dropproxy": False, "presend": [1, 0, 0], "stop": "shutdown"}
     raw = os.path.join(wd, "rt.ndjson")
     run_harness("os", ["router"], stdin=json.dumps(sc) + "\n", env={"IPC_VERIF_TRACE": raw, "RUST_BACKTRACE": "0"})
     compact = os.path.join(wd, "rt.compact.ndjson")
@@ -148,6 +153,34 @@ def run(tier):
                     f.write(json.dumps(x) + "\n")
         tr, rej = routercheck.validate(wd, "rtbad2", bad)
         expect(res, "RouterTrace rejects a trace from which one callback drop was removed", bool(tr.violation or rej))
+    os.remove(raw)
+    # fifo trace
+    import fifocheck
+    r = fifocheck.model(wd, "lifo", [2, 1], discipline="lifo")
+    expect(res, "Fifo variant lifo violates RealTimeFIFO", r.violation is not None, str(r.violation))
+    sc = {"id": 0, "seed": 5, "senders": [{"kind": "thread", "lens": [100, 9000, 100]}, {"kind": "proc", "lens": [100, 100]}],
+          "receiver": "eager"}
+    raw = os.path.join(wd, "ff.ndjson")
+    run_harness("os", ["fifo"], stdin=json.dumps(sc) + "\n", env={"IPC_VERIF_TRACE": raw, "IPC_VERIF_SENDBUF": 4096, "RUST_BACKTRACE": "0"})
+    compact = os.path.join(wd, "ff.compact.ndjson")
+    evs = fifocheck.convert(raw, compact)
+    tr, rej = fifocheck.validate(wd, "ff", compact)
+    expect(res, "FifoTrace accepts a verbatim trace", not tr.violation and not rej, str(tr.violation or rej))
+    rc = [i for i, e in enumerate(evs) if e["ev"] == "f.recv" and e["s"] == 1]
+
+    def swapped(e):
+        e = list(e)
+        e[rc[0]], e[rc[1]] = e[rc[1]], e[rc[0]]
+        return e
+    for what, mut in (("two deliveries of one sender swapped", swapped),
+                      ("a delivery duplicated", lambda e: e[:rc[0] + 1] + [e[rc[0]]] + e[rc[0] + 1:]),
+                      ("a delivery removed before the disconnection", lambda e: [x for i, x in enumerate(e) if i != rc[-1]])):
+        bad = os.path.join(wd, "ff.bad.ndjson")
+        with open(bad, "w") as f:
+            for x in mut(evs):
+                f.write(json.dumps(x) + "\n")
+        tr, rej = fifocheck.validate(wd, "ffbad", bad)
+        expect(res, "FifoTrace rejects a trace with %s" % what, bool(tr.violation or rej))
     os.remove(raw)
     # ---- 3. replay comparison: falsify the model's expectation
     g = chancheck.gen(wd, "c", maxops=2)
